@@ -1,5 +1,6 @@
 """C17 — every rule parses to one meaning or is rejected; malformed rules cannot load."""
 import json
+import os
 
 from vlib import core
 
@@ -146,6 +147,100 @@ def unicode_sweep():
     return bad
 
 
+def load_routes(rules_m, rules_p, kind):
+    """try to construct / load an item with these rule lists along every route; -> {route: accepted?}"""
+    import base64
+    import tempfile
+    from in_toto.models.layout import Inspection, Layout, Step
+    from in_toto.models.metadata import Metadata
+    out = {}
+
+    def attempt(name, fn):
+        try:
+            fn()
+            out[name] = True
+        except Exception as e:  # noqa
+            out[name] = False if classify(e) == {"err": "Format"} else "Crash:" + type(e).__name__
+    item = {"_type": "step" if kind == "step" else "inspection", "name": "n", "expected_materials": rules_m,
+            "expected_products": rules_p}
+    cls = Step if kind == "step" else Inspection
+    attempt("constructor", lambda: cls(name="n", expected_materials=rules_m, expected_products=rules_p))
+    attempt("read", lambda: cls.read(dict(item)))
+    lay = {"_type": "layout", "steps": [item] if kind == "step" else [], "inspect": [item] if kind != "step" else [],
+           "keys": {}, "expires": "2030-01-01T00:00:00Z", "readme": ""}
+    attempt("Layout.read", lambda: Layout.read(json.loads(json.dumps(lay))))
+    with tempfile.TemporaryDirectory() as td:
+        p1 = os.path.join(td, "mb.layout")
+        json.dump({"signed": lay, "signatures": []}, open(p1, "w"))
+        attempt("Metadata.load(traditional)", lambda: Metadata.load(p1).get_payload())
+        p2 = os.path.join(td, "dsse.layout")
+        json.dump({"payload": base64.b64encode(json.dumps(lay).encode()).decode(), "payloadType": "application/vnd.in-toto+json",
+                   "signatures": []}, open(p2, "w"))
+        attempt("Metadata.load(DSSE)+get_payload", lambda: Metadata.load(p2).get_payload())
+    # the from-string helpers: a rejected string must leave the object as it was (and valid)
+    import re as _re
+    plain = _re.compile(r"^[A-Za-z0-9*?./_\[\]{}-]+$")     # tokens that shlex.split returns unchanged
+    if all(isinstance(r, list) and all(isinstance(t, str) and plain.match(t) for t in r) for r in rules_m + rules_p):
+        try:
+            obj = cls(name="n")
+            ok = True
+            for r in rules_m:
+                try:
+                    obj.add_material_rule_from_string(" ".join(r))
+                except Exception as e:  # noqa
+                    ok = False if classify(e) == {"err": "Format"} else "Crash:" + type(e).__name__
+            for r in rules_p:
+                try:
+                    obj.add_product_rule_from_string(" ".join(r))
+                except Exception as e:  # noqa
+                    ok = False if classify(e) == {"err": "Format"} else "Crash:" + type(e).__name__
+            try:
+                obj.validate()
+                still_valid = True
+            except Exception:  # noqa
+                still_valid = False
+            out["from_string"] = ok
+            out["object_valid_after_from_string"] = still_valid
+        except Exception as e:  # noqa
+            out["from_string"] = "Crash:" + type(e).__name__
+    return out
+
+
+def loading_stream(ctx, n):
+    """'a layout, step or inspection containing a malformed rule cannot be constructed or loaded': rule lists with one
+    (possibly) malformed rule at a random position; expectation = the model's parser on every rule"""
+    rng = ctx.rng
+    good = [["CREATE", "a"], ["match", "*", "WITH", "products", "FROM", "s"], ["DISALLOW", "*"], ["Allow", "x/y"],
+            ["MATCH", "p", "IN", "a", "WITH", "MATERIALS", "IN", "b", "FROM", "t"], ["REQUIRE", "f"]]
+    cases = []
+    for _ in range(n):
+        lst = [rng.choice(good) for _ in range(rng.randrange(0, 4))]
+        odd = gen_rule(rng)
+        lst.insert(rng.randrange(len(lst) + 1), odd)
+        side = rng.random() < 0.5
+        cases.append({"m": lst if side else [rng.choice(good)], "p": [rng.choice(good)] if side else lst,
+                      "kind": rng.choice(["step", "inspection"])})
+    model = core.Model()
+    flat = [(ci, r) for ci, c in enumerate(cases) for r in c["m"] + c["p"]]
+    ans = model.batch([("unpack_rule", r) for _, r in flat])
+    okmap = {}
+    for (ci, _), a in zip(flat, ans):
+        okmap[ci] = okmap.get(ci, True) and isinstance(a, dict) and "ok" in a
+    bad = []
+    for ci, c in enumerate(cases):
+        if not isinstance(c["m"], list) or not isinstance(c["p"], list):
+            continue
+        got = load_routes(c["m"], c["p"], c["kind"])
+        want = okmap[ci]
+        for route, acc in got.items():
+            if route == "object_valid_after_from_string":
+                if acc is not True:
+                    bad.append((c, route, acc, True))
+            elif acc != want:
+                bad.append((c, route, acc, want))
+    return len(cases), sum(1 for v in okmap.values() if not v), bad
+
+
 def run(ctx):
     n = 40000 if ctx.thorough() else 6000
     core.check_props(ctx, ["Props/C17.v"])
@@ -163,6 +258,11 @@ def run(ctx):
     ans = model.batch(reqs)
     mism = [(reqs[i], impl[i], ans[i]) for i in range(len(reqs)) if impl[i] != ans[i]]
     sweep_bad = unicode_sweep()
+    nload, nload_bad_rules, load_bad = loading_stream(ctx, 1500 if ctx.thorough() else 250)
+    for (c, route, acc, want) in load_bad[:4]:
+        ctx.violation("construction/loading route %s: %s a %s whose rules the parser %s (materials %r products %r)" % (
+            route, "accepted" if acc is True else "rejected (%s)" % acc, c["kind"], "accepts" if want else "rejects", c["m"], c["p"]),
+            {"op": "load_routes", "case": c, "route": route, "accepted": acc, "model_all_rules_parse": want})
     kn, kok, kdetail = core.kernel_sample(ctx, model)
     ctx.oblige("kernel-vs-extraction-sample", kok, kdetail)
     ctx.oblige("unicode-lower-hypothesis", not sweep_bad, "code points %r" % sweep_bad[:10])
@@ -170,7 +270,7 @@ def run(ctx):
         ctx.violation("unpack/pack: implementation %r, model (= proved grammar) %r on %r" % (i, a, req),
                       {"op": req[0], "arg": req[1], "impl": i, "model": a})
     broken = ctx.broken_obligations()
-    if broken and not mism:
+    if broken and not mism and not load_bad:
         ctx.violation("broken obligation(s): " + "; ".join(n for n, _ in broken),
                       {"broken": [{"name": n, "detail": d} for n, d in broken]}, no_input=True)
     distinct = {json.dumps(r, sort_keys=True) for r in rules}
@@ -197,6 +297,9 @@ def run(ctx):
         "programs": 2, "disagreements_checked": len(reqs), "mismatches": len(mism),
         "impl_outcomes": outcomes, "length_distribution": lens,
         "kernel_sample_cases": kn,
+        "loading_cases": nload, "loading_cases_with_malformed_rule": nload_bad_rules, "loading_mismatches": len(load_bad),
+        "loading_routes": ["constructor", "read", "Layout.read", "Metadata.load(traditional)", "Metadata.load(DSSE)+get_payload",
+                           "add_*_rule_from_string (object must stay valid after a rejected string)"],
     }
     return core.finish(ctx, "proof", cov, [
         "theorems are about Model/Rule.v; tie: Gen/Fun.v (regenerated from in_toto/rulelib.py, formats.py) proved "
